@@ -130,11 +130,19 @@ def leafVal : GoVal → Option Val
   | .str s => some (.S s)
   | .num q => some (.N q)
   | .bool b => some (.B b)
+  -- the ends of a path at which the data stops: Go's nil, a nil pointer, a nil interface value (of ANY interface type - the
+  -- repair 318a99d made the non-empty ones convert like the empty one) are the template's null
+  | .nil => some .nil
+  | .ptr none => some .nil
+  | .iface none => some .nil
   | _ => none
 
 theorem convert_leaf (fuel : Nat) (g : GoVal) (v : Val) (h : Heap) (hl : leafVal g = some v) :
     convertGoF (fuel + 1) g h = (h, v) := by
-  cases g <;> simp [leafVal] at hl <;> subst hl <;> simp [convertGoF]
+  cases g with
+  | ptr o => cases o <;> simp [leafVal] at hl; subst hl; simp [convertGoF]
+  | iface o => cases o <;> simp [leafVal] at hl; subst hl; simp [convertGoF]
+  | _ => simp [leafVal] at hl <;> subst hl <;> simp [convertGoF]
 
 /-! ## the fold that builds a map's items -/
 
